@@ -215,7 +215,7 @@ pub fn decode(
             Sym::Rep { r, .. } => {
                 cs.rep[r as usize] + 1 <= cs.out.len() as u64 && cs.rep[r as usize] + 1 <= dict
             }
-            Sym::Eos => true,
+            Sym::Eos | Sym::Eosn { .. } => true,
         };
         if !dist_ok {
             end = End::BadDistance;
